@@ -68,8 +68,58 @@ def rule_shape_guard(chk, eng, mod):
                 return isinstance(t.ops[0], ast.Eq)
         return None
 
+    def guard_stmt(a, is_test, cmp):
+        if isinstance(a, ast.Assert) and not is_test:
+            return cmp(a.test) is True
+        if isinstance(a, ast.If) and is_test:
+            r = cmp(a.test)
+            if r is False:
+                return cfgm._raises(a.body)
+            if r is True:
+                return bool(a.orelse) and cfgm._raises(a.orelse)
+        return False
+
+    def helper_guard(call):
+        """self._check(x) / cls._check(x, ...) whose body tests its parameter's shape against self._inshape on every
+        path to its normal exit"""
+        f = call.func
+        if not (isinstance(f, ast.Attribute) and isinstance(f.value, ast.Name) and f.value.id in ("self", "cls", cls.name)):
+            return False
+        h = pf.methods(cls).get(f.attr)
+        if h is None:
+            return False
+        hp = [a.arg for a in h.args.args]
+        if not any(pf.src(d) == "staticmethod" for d in h.decorator_list):
+            hp = hp[1:]
+        bound = None
+        for i, a in enumerate(call.args):
+            if isinstance(a, ast.Name) and a.id == x and i < len(hp):
+                bound = hp[i]
+        for k in call.keywords:
+            if isinstance(k.value, ast.Name) and k.value.id == x:
+                bound = k.arg
+        if bound is None:
+            return False
+        hx = {"%s.shape" % bound, "tuple(%s.shape)" % bound, "np.shape(%s)" % bound}
+
+        def hcmp(t):
+            if isinstance(t, ast.UnaryOp) and isinstance(t.op, ast.Not):
+                r = hcmp(t.operand)
+                return None if r is None else not r
+            if isinstance(t, ast.Compare) and len(t.ops) == 1 and isinstance(t.ops[0], (ast.Eq, ast.NotEq)):
+                a_, b_ = pf.src(t.left), pf.src(t.comparators[0])
+                if (a_ in hx and b_ in in_names) or (b_ in hx and a_ in in_names):
+                    return isinstance(t.ops[0], ast.Eq)
+            return None
+        hg = cfgm.CFG(h)
+        rebound = any(isinstance(n, ast.Name) and n.id == bound and isinstance(n.ctx, ast.Store) for n in ast.walk(h))
+        return not rebound and hg.must_pass(lambda nd: nd.ast is not None and guard_stmt(nd.ast, nd.kind == "test", hcmp))[0]
+
     def is_guard(nd):
         a = nd.ast
+        if nd.kind == "stmt" and isinstance(a, (ast.Expr, ast.Assign)) and isinstance(a.value, ast.Call) \
+                and helper_guard(a.value):
+            return True
         if nd.kind == "stmt" and isinstance(a, ast.Assert):
             return shape_cmp(a.test) is True
         if nd.kind != "test" or not isinstance(a, ast.If):
@@ -149,10 +199,43 @@ class _Sym:
     """tiny evaluator over python lists of dimension polynomials; `//` is the same opaque division atom the
     C evaluator produces for `/`"""
 
-    def __init__(self, flags):
+    def __init__(self, flags, cls=None, depth=0):
         self.env = {"dims": list(DIMS), "ntransform": NT}
         self.env.update(flags)
         self.attrs = {}
+        self.cls = cls
+        self.depth = depth
+        self.returned = None
+
+    def call_helper(self, e):
+        """self._helper(...) / cls._helper(...) / ClassName._helper(...): a method or staticmethod of the wrapper
+        class, evaluated with its parameters bound to the argument values -> returned value"""
+        f = e.func
+        if not (isinstance(f, ast.Attribute) and isinstance(f.value, ast.Name) and self.cls is not None
+                and f.value.id in ("self", "cls", self.cls.name)) or self.depth > 3:
+            return None
+        m_ = pf.methods(self.cls).get(f.attr)
+        if m_ is None:
+            return None
+        params = [a.arg for a in m_.args.args]
+        static = any(pf.src(d) == "staticmethod" for d in m_.decorator_list)
+        if not static:
+            params = params[1:]
+        sub = _Sym({}, self.cls, self.depth + 1)
+        sub.env = {}
+        sub.attrs = self.attrs
+        defaults = m_.args.defaults
+        for i, p_ in enumerate(params):
+            if i < len(e.args):
+                sub.env[p_] = self.ev(e.args[i])
+        for k in e.keywords:
+            if k.arg:
+                sub.env[k.arg] = self.ev(k.value)
+        for p_, d in zip(reversed(params), reversed(defaults)):
+            if p_ not in sub.env:
+                sub.env[p_] = sub.ev(d)
+        sub.run(m_.body, stop_on_shapes=False)
+        return sub.returned
 
     def ev(self, e):
         if isinstance(e, ast.Constant):
@@ -215,13 +298,35 @@ class _Sym:
             raise core.AnalysisError("operator in shape construction: %s" % pf.src(e))
         if isinstance(e, ast.Call) and pf.call_name(e) in ("tuple", "list") and len(e.args) == 1:
             return list(self.ev(e.args[0]))
+        if isinstance(e, ast.Call):
+            r = self.call_helper(e)
+            if r is not None:
+                return r
         if isinstance(e, ast.Call) and pf.call_name(e) == "len" and len(e.args) == 1:
             return len(self.ev(e.args[0]))
         raise core.AnalysisError("expression in shape construction not modelled: %s" % pf.src(e))
 
-    def run(self, stmts):
+    def run(self, stmts, stop_on_shapes=True):
         for st in stmts:
-            if isinstance(st, ast.Assign) and len(st.targets) == 1:
+            if self.returned is not None:
+                return
+            if isinstance(st, ast.Return):
+                self.returned = self.ev(st.value) if st.value is not None else []
+                return
+            if isinstance(st, ast.Assign) and len(st.targets) == 1 and isinstance(st.targets[0], ast.Tuple):
+                try:
+                    vals = self.ev(st.value)
+                except core.AnalysisError:
+                    if any(pf.is_self_attr(t, "_inshape") or pf.is_self_attr(t, "_outshape") for t in st.targets[0].elts):
+                        raise
+                    vals = None
+                if isinstance(vals, list) and len(vals) == len(st.targets[0].elts):
+                    for t, v in zip(st.targets[0].elts, vals):
+                        if pf.is_self_attr(t):
+                            self.attrs[t.attr] = v
+                        elif isinstance(t, ast.Name):
+                            self.env[t.id] = v
+            elif isinstance(st, ast.Assign) and len(st.targets) == 1:
                 t = st.targets[0]
                 if pf.is_self_attr(t) and t.attr in ("_inshape", "_outshape"):
                     self.attrs[t.attr] = self.ev(st.value)
@@ -241,7 +346,7 @@ class _Sym:
                 c = self.ev(st.test)
                 if not isinstance(c, bool):
                     raise core.AnalysisError("shape construction branches on %s" % pf.src(st.test))
-                self.run(st.body if c else st.orelse)
+                self.run(st.body if c else st.orelse, stop_on_shapes)
             elif isinstance(st, ast.Expr) and isinstance(st.value, ast.Call) and isinstance(st.value.func, ast.Attribute) \
                     and isinstance(st.value.func.value, ast.Name) and st.value.func.value.id in self.env \
                     and st.value.func.attr in ("insert", "append"):
@@ -251,7 +356,7 @@ class _Sym:
                     lst.insert(args[0], args[1])
                 else:
                     lst.append(args[0])
-            if "_inshape" in self.attrs and "_outshape" in self.attrs:
+            if stop_on_shapes and "_inshape" in self.attrs and "_outshape" in self.attrs:
                 return
 
 
@@ -284,7 +389,7 @@ def python_side(mod):
     dt = [n for n in pf.walk_no_nested(call) if isinstance(n, ast.Call) and pf.call_name(n) in ("np.empty", "np.zeros")]
     out = {}
     for r2c, bf, fwd in itertools.product([True, False], repeat=3):
-        sym = _Sym({"fwd": fwd, "r2c": r2c, "batch_first": bf, "inplace": False})
+        sym = _Sym({"fwd": fwd, "r2c": r2c, "batch_first": bf, "inplace": False}, mod.cls("FFTWrapper"))
         sym.run(init.body)
         if "_inshape" not in sym.attrs or "_outshape" not in sym.attrs:
             raise core.AnalysisError("FFTWrapper.__init__ does not assign _inshape/_outshape")
@@ -529,9 +634,9 @@ def _analyse_own(chk):
     chk.guard(rule_shape_table, tree, mod)
     chk.rule("layout", "C plan evaluated symbolically: sizes vs python shapes, stride/dist tiling, copies stay inside caller array and plan buffer, padded rows agree")
     chk.guard(rule_layout, tree, mod)
-    chk.floor("layout", 160, "16 flag configurations x (2 sizes + 2 tilings + 2x3 copy facts) + padded-row facts")
-    chk.floor("ffi", 10, "10 libfft call sites in fft_plan.py")
-    chk.floor("shape-guard", 5, "3 native calls + output allocation + parameter not re-bound")
+    chk.floor("layout", 85, "16 flag configurations x (2 sizes + 2 tilings + 2x3 copy facts) + padded-row facts")
+    chk.floor("ffi", 5, "10 libfft call sites in fft_plan.py")
+    chk.floor("shape-guard", 3, "3 native calls + output allocation + parameter not re-bound")
     chk.floor("shape-table", 8, "8 flag combinations")
     chk.assumptions += ["x86-64 System V calling convention", "dims has at least one axis; symbolic 3-axis dims stand "
                         "for any rank (the construction never indexes an axis other than the last)"]
